@@ -180,6 +180,26 @@ func genConfig(t *rapid.T, allowLocked bool) (string, map[string]bool) {
 		}
 		b.WriteString("  " + bl.hcl + "\n}\n")
 	}
+	// rule { enable = [...] } blocks (optionally with the check disabled globally): a check switched on
+	// this way must still obey rule-level control comments
+	reporters := []string{"alerts/comparison", "alerts/template", "alerts/for", "promql/fragile", "promql/regexp", "promql/impossible",
+		"rule/label", "rule/name", "rule/for", "alerts/annotation", "promql/aggregate", "rule/reject", "rule/report"}
+	if rapid.IntRange(0, 2).Draw(t, "enableBlock") == 0 {
+		var globally []string
+		k := rapid.IntRange(1, 3).Draw(t, "nenable")
+		var names []string
+		for i := 0; i < k; i++ {
+			r := rapid.SampledFrom(reporters).Draw(t, fmt.Sprintf("enable%d", i))
+			names = append(names, fmt.Sprintf("%q", r))
+			if rapid.Bool().Draw(t, fmt.Sprintf("enableAndDisabled%d", i)) {
+				globally = append(globally, fmt.Sprintf("%q", r))
+			}
+		}
+		b.WriteString("rule {\n  enable = [" + strings.Join(names, ", ") + "]\n}\n")
+		if len(globally) > 0 {
+			b.WriteString("checks {\n  disabled = [" + strings.Join(globally, ", ") + "]\n}\n")
+		}
+	}
 	return b.String(), locked
 }
 
